@@ -289,3 +289,109 @@ func TestC05ConcurrentHelloRace(t *testing.T) {
 		}
 	})
 }
+
+// TestC03ChannelUnprovenKey: the key a channel reports is a key whose holder signed this channel's handshake. An
+// adversary without any private key of the victim replays the victim's public claim (key, timestamp, signature over the
+// timestamp - visible in every InitHello the victim ever sent) inside hellos of its own making; nothing it can send
+// afterwards completes the handshake. The channel must keep reporting no key, and an honest peer must still get through.
+func TestC03ChannelUnprovenKey(t *testing.T) {
+	const sub = "C03.channel_unproven_key"
+	ev.Rule(sub, "rapid: a fresh channel R (accepts every key, or every key but the adversary's own) receives 1-4 InitHellos built from first principles that carry the victim V's lifted claim on an ephemeral key of the adversary's, optionally followed by an InitDone with a signature of the adversary's own key, garbage or nothing, and a data message under the adversary's ciphers; then optionally an honest peer Q with another key runs a complete handshake (driven message by message) and sends data. Oracle: RemoteKey() after every delivery is unset or the key of a peer that completed its handshake (never V's, whom nobody impersonated successfully); no application data of the adversary is handed out; Q's handshake completes and its data is delivered when the predicate accepts Q. non-trivial = a lifted claim followed by Q's handshake; distinct by script")
+	rapid.Check(t, func(t *rapid.T) {
+		now := time.Now()
+		// harvest V's public claim from one InitHello of V
+		vs := p2pke.NewSession(p2pke.SessionConfig{Registry: reg, PrivateKey: testKey(kB), IsInit: true, Now: now, RejectAfter: time.Hour, Logger: nopLog})
+		vh, err := p2pke.Message(vs.Handshake(nil)).GetInitHello()
+		if err != nil {
+			t.Fatalf("harness: %v", err)
+		}
+		var omu sync.Mutex
+		var out [][]byte
+		R := p2pke.NewChannel(p2pke.ChannelConfig{
+			Registry: reg, PrivateKey: testKey(kA), Logger: nopLog,
+			AcceptKey: func(*x509.PublicKey) bool { return true },
+			Send: func(d []byte) {
+				omu.Lock()
+				out = append(out, append([]byte{}, d...))
+				omu.Unlock()
+			},
+			KeepAliveTimeout: time.Minute, HandshakeBackoff: time.Hour, RekeyAfterTime: time.Hour, RejectAfterTime: time.Hour,
+		})
+		defer R.Close()
+		take := func() [][]byte {
+			omu.Lock()
+			defer omu.Unlock()
+			o := out
+			out = nil
+			return o
+		}
+		var script []string
+		proven := -1 // key index of the peer that completed a handshake with R
+		deliver := func(what string, msg []byte, honestFrom int) {
+			pt, err := R.Deliver(nil, append([]byte{}, msg...))
+			k := keyIndex(R.RemoteKey())
+			if k >= 0 && k != proven {
+				t.Fatalf("after %s the channel reports RemoteKey K%d although no holder of that key completed a handshake with it (completed: K%d)\nscript: %s", what, k, proven, strings.Join(script, "; "))
+			}
+			if err == nil && pt != nil && honestFrom < 0 {
+				t.Fatalf("after %s the channel handed the adversary's bytes %q to the application\nscript: %s", what, pt, strings.Join(script, "; "))
+			}
+		}
+		n := rapid.IntRange(1, 4).Draw(t, "forgedHellos")
+		for i := 0; i < n; i++ {
+			fp := kefake.NewPeer(true)
+			script = append(script, "forged InitHello(claim lifted from V)")
+			deliver("a forged InitHello naming V", fp.InitHello(vh.TimestampTai64N, vh.KeyX509, vh.Sig), -1)
+			var cb []byte
+			for _, o := range take() {
+				if counterOf(o) == 1 && cb == nil {
+					if c, ok := fp.ReadRespHello(o); ok {
+						cb = c
+					}
+				}
+			}
+			if cb == nil || !fp.HasCiphers() {
+				continue
+			}
+			switch rapid.SampledFrom([]string{"none", "ownKey", "garbage"}).Draw(t, "initDone") {
+			case "ownKey":
+				script = append(script, "InitDone(signed with the adversary's own key)")
+				deliver("an InitDone signed by another key", fp.InitDone(kefake.SignAs(5, kefake.PurposeCB, cb)), -1)
+			case "garbage":
+				script = append(script, "InitDone(garbage signature)")
+				deliver("an InitDone with a garbage signature", fp.InitDone(make([]byte, 64)), -1)
+			}
+			if rapid.Bool().Draw(t, "data") {
+				script = append(script, "data under the adversary's ciphers")
+				deliver("data under the adversary's ciphers", fp.Data([]byte("attacker-data-0123456789")), -1)
+			}
+			take()
+		}
+		honest := rapid.Bool().Draw(t, "honestPeerAfterwards")
+		if honest {
+			script = append(script, "honest Q: full handshake, data")
+			Q := p2pke.NewSession(p2pke.SessionConfig{Registry: reg, PrivateKey: testKey(kC), IsInit: true, Now: time.Now(), RejectAfter: time.Hour, Logger: nopLog})
+			proven = kC // from here on Q may legitimately be reported (only once its InitDone was accepted, which the library decides)
+			msg := Q.Handshake(nil)
+			for hop := 0; hop < 4 && len(msg) > 0; hop++ {
+				deliver("a message of the honest peer Q", msg, kC)
+				msg = nil
+				for _, o := range take() {
+					if _, resp, err := Q.Deliver(nil, o, time.Now()); err == nil && len(resp) > 0 {
+						msg = append([]byte{}, resp...)
+					}
+				}
+			}
+			if keyIndex(R.RemoteKey()) != kC {
+				t.Fatalf("an honest peer with another key could not complete its handshake after the forged hellos: RemoteKey is K%d\nscript: %s", keyIndex(R.RemoteKey()), strings.Join(script, "; "))
+			}
+		}
+		ev.Eval(sub)
+		if honest {
+			key := strings.Join(script, ";")
+			if ev.NonTrivial(sub, key) {
+				ev.Sample(sub, key)
+			}
+		}
+	})
+}
